@@ -155,6 +155,10 @@ def _run(case, sched, world, cfg, dg_json):
         if len(d) == 0 and np.any(img != 0):
             raise Violation("empty=>zero-image", "transform(single)", "nonzero", "empty diagram gave a non-zero image")
         if nonneg:
+            if not np.isfinite(img).all():
+                raise Violation("pixel-total<=total-weight", "transform(single)", "non-finite/" + cfg["kernel"],
+                                "image of diagram %d contains non-finite pixels (kernel %s): neither non-negative nor "
+                                "bounded by the total weight %r" % (i, cfg["kernel"], float(W[i].sum())))
             if img.min(initial=0.0) < -abs_tol:
                 raise Violation("non-negative-pixels", "transform(single)", cfg["kernel"],
                                 "pixel %r < 0 with non-negative weights (kernel %s)" % (float(img.min()), cfg["kernel"]))
@@ -271,6 +275,8 @@ def _run(case, sched, world, cfg, dg_json):
             allbp = np.vstack([BP[i] for i in ids if len(D[i])])
             if not (np.ptp(allbp[:, 0]) > 0 and np.ptp(allbp[:, 1]) > 0):
                 continue
+            if max(np.ptp(allbp[:, 0]), np.ptp(allbp[:, 1])) / float(cfg["pixel_size"]) > 60:
+                continue        # far-outside points would make the fitted image enormous
             twin = ic.make_imager(cfg)
             out = call("fit_transform", twin.fit_transform, coll, skew=True)
             twin2 = ic.make_imager(cfg)
